@@ -109,6 +109,9 @@ fn get_delta_header_size(
         }
         let cmd = delta[*index];
         *index += 1;
+        if i >= usize::BITS as usize {
+            return Err("delta size header too long");
+        }
         size |= ((cmd & !0x80) as usize) << i;
         i += 7;
         if cmd & 0x80 == 0 {
